@@ -5,7 +5,7 @@ CONSTANTS
  HashSession = TRUE
  HashId = TRUE
  DedupMode = "peer+id"
- Level = "accepted"
+ AllowRelay = FALSE
 CONSTRAINT Mark
 POSTCONDITION Report
 CHECK_DEADLOCK FALSE
